@@ -22,6 +22,8 @@ class Step:
         a = list(self.args) + ["_"] * (6 - len(self.args))
         return "%d %d %d %d %d %s %s" % (c.year, c.month, c.day, c.hour, c.minute, self.kind, " ".join(a))
 
+TRACK_EXPECT = {}
+
 def clean_lines(rng, first_may_be_value=False):
     """entry-summary lines acceptable to the command line decoder: first line free, later lines non-blank"""
     n = rng.choice([1, 1, 1, 2, 3])
@@ -98,9 +100,15 @@ def make_history(rng, max_steps=6, kinds=None, doc=None):
             ds, _ = rand_datesel(rng, today, doc)
             e = specgen.Entry(rng, allow_open=rng.random() < 0.3)
             lines = [e.value_text() + ((" " + e.first) if e.first is not None else "")] + [t for _, t in e.more]
+            lines = [l.replace("\r", "") for l in lines]
+            sem = (("D", e.d.mins(), None) if e.kind == "dur" else ("G", e.a.off, e.b.off) if e.kind == "range" else ("O", e.a.off, None)) \
+                  + (tuple([(e.first or "").replace("\r", "").encode()] + [t.replace("\r", "").encode() for _, t in e.more]),)
             if rng.random() < 0.06:
                 lines = [rng.choice(["foo", "1x", "25:00-26:00", "x 1h", "  1h", "10:00 - 9:00"])]     # not an entry
-            steps.append(Step(now, k, [ds, hl([l.replace("\r", "") for l in lines])]))
+                sem = "skip" if lines[0].startswith(" ") else "fail"
+            arg = hl(lines)
+            TRACK_EXPECT[arg] = sem
+            steps.append(Step(now, k, [ds, arg]))
         elif k in ("start", "switch"):
             ds, _ = rand_datesel(rng, today, doc)
             r = rng.random()
@@ -412,7 +420,15 @@ def predict(recs, cfg, step):
         recs.insert(pos, {"date": (date.year, date.month, date.day), "should": sh or 0, "summary": sm, "entries": []})
         return recs
     if kind == "track":
-        return None        # the entry text is free-form: checked through the entry count and the untouched rest below
+        sem = TRACK_EXPECT.get(step[7])
+        if sem is None or sem == "skip":
+            return None    # entry text not generated here: checked through the entry count and the untouched rest below
+        if sem == "fail":
+            return "fail"
+        if idx is None: idx = new_record()
+        if sem[0] == "O" and has_open(recs[idx]): return "fail"
+        recs[idx]["entries"].append(sem)
+        return recs
     if kind == "start":
         off = resolve_time(step, cfg, date)
         if off is None: return "fail"
